@@ -238,41 +238,49 @@ def projection(o):
 
 # ---------------------------------------------------------------- cases
 def make_cases(tier):
-    """-> [(words, pb, db)]"""
+    """-> [(words, pb, db)]   (measured sizes with the environment reduction: 1W+1N (2,1) ~80 schedules, (3,2) ~250;
+    3 threads (2,1) ~3-4k, (3,1) ~10k, (2,2) ~19k; 2W+2N (1,1) ~18k, (2,1) ~150k; 3W+1N (1,1) ~42k)"""
     cs = []
     quick = tier == 'quick'
-    pb2, db1 = (2, 1) if quick else (3, 2)
     # 1W + 1N: every waiter flavour x every notifier flavour
     for exp, to, bits in itertools.product(('old', 'new'), (INF, FIN), (32, 64)):
         for addr, cnt, st in itertools.product((A, A2, B), (0, 1, 2, MAXCOUNT), (0, 1)):
-            if quick and (bits == 64 and (addr != A or cnt in (2,))):
-                continue
-            cs.append(([W(A, exp, to, bits), N(addr, cnt, st)], pb2, db1))
+            cs.append(([W(A, exp, to, bits), N(addr, cnt, st)], 2 if quick else 3, 1 if quick else 2))
     # 2W + 1N
-    for to1, (a2, exp2, to2), cnt, st in itertools.product((INF, FIN), [(A, 'old', INF), (A, 'old', FIN), (A2, 'old', INF), (B, 'old', FIN), (A, 'new', INF)], (0, 1, 2, MAXCOUNT), (0, 1)):
-        if quick and ((to1 == FIN and to2 == FIN) or (st and cnt in (0, 2)) or (a2 != A and cnt in (0, MAXCOUNT))):
+    second = [(A, 'old', INF), (A, 'old', FIN), (A2, 'old', INF), (B, 'old', FIN), (A, 'new', INF)]
+    for to1, (a2, exp2, to2), cnt, st in itertools.product((INF, FIN), second, (0, 1, 2, MAXCOUNT), (0, 1)):
+        if (to1 == FIN and to2 == FIN) or (st and cnt in (0, 2)) or (a2 != A and cnt in (0, MAXCOUNT)):
+            continue
+        if quick and not ((to1 == INF and st == 0 and cnt in (1, MAXCOUNT)) or (to1 == FIN and a2 == A and exp2 == 'old' and cnt == 1)):
             continue
         cs.append(([W(A, 'old', to1), W(a2, exp2, to2), N(A, cnt, st)], 2 if quick else 3, 1))
     # 1W + 2N
     for to, (c1, s1), (a2, c2, s2) in itertools.product((INF, FIN), [(1, 0), (1, 1), (MAXCOUNT, 0), (0, 0)], [(A, 1, 0), (A, 2, 1), (A2, 1, 0), (B, MAXCOUNT, 0), (A, MAXCOUNT, 0)]):
-        if quick and ((to == FIN and c1 == 0) or (s1 and s2)):
+        if (to == FIN and c1 == 0) or (s1 and s2):
+            continue
+        if quick and not ((to == INF and (c1, s1) in ((1, 0), (1, 1)) and a2 == A) or (to == FIN and (c1, s1) == (1, 0) and (a2, c2) in ((A, 1), (A2, 1)))):
             continue
         cs.append(([W(A, 'old', to), N(A, c1, s1), N(a2, c2, s2)], 2 if quick else 3, 1))
     # 2W + 2N
     four = [([W(A, 'old', INF), W(A, 'old', INF), N(A, 1, 0), N(A, 1, 0)]),
-            ([W(A, 'old', INF), W(A, 'old', FIN), N(A, 1, 0), N(A, MAXCOUNT, 0)]),
-            ([W(A, 'old', INF), W(A2, 'old', INF), N(A, 2, 0), N(A2, 1, 0)]),
-            ([W(A, 'old', FIN), W(B, 'old', INF), N(A, 1, 1), N(B, 1, 0)]),
-            ([W(A, 'old', INF), W(A, 'new', INF), N(A, 2, 1), N(A, 1, 0)])]
-    for ws in four[:3] if quick else four:
-        cs.append((ws, 1 if quick else 2, 1 if quick else 1))
-    if not quick:
+            ([W(A, 'old', INF), W(A2, 'old', FIN), N(A, 2, 0), N(A2, 1, 0)]),
+            ([W(A, 'old', INF), W(A, 'old', FIN), N(A, 1, 1), N(A, MAXCOUNT, 0)]),
+            ([W(A, 'old', FIN), W(B, 'old', INF), N(A, 1, 1), N(B, 1, 0)])]
+    if quick:
         for ws in four[:2]:
+            cs.append((ws, 1, 1))
+    else:
+        for ws in four[:2]:
+            cs.append((ws, 2, 1))
+        for ws in four[2:]:
+            cs.append((ws, 1, 1))
+        # deviation bound 2 with three threads
+        for ws in ([W(A, 'old', INF), W(A, 'old', FIN), N(A, 1, 0)], [W(A, 'old', FIN), W(A2, 'old', FIN), N(A, MAXCOUNT, 0)], [W(A, 'old', FIN), N(A, 1, 0), N(A, 1, 1)],
+                   [W(A, 'old', INF), N(A, 1, 0), N(A, MAXCOUNT, 0)]):
             cs.append((ws, 2, 2))
         # 3W + 1N
         for cnt in (1, 2, MAXCOUNT):
-            cs.append(([W(A, 'old', INF), W(A, 'old', FIN), W(A2, 'old', INF), N(A, cnt, 0)], 2, 1))
-            cs.append(([W(A, 'old', INF), W(A, 'old', INF), W(A, 'old', INF), N(A, cnt, 1)], 2, 1))
+            cs.append(([W(A, 'old', INF), W(A, 'old', FIN), W(A2, 'old', INF), N(A, cnt, 0)], 1, 1))
     # memarg offsets under the protocol (E1 continued): a waiter registered at the effective address vs notify with offset 16,
     # and a waiter with offset 16 vs a plain notify on the effective address
     cs.append(([W(A + 16, 'old', INF), N(A, 1, 0, off=16)], 2, 1))
@@ -283,7 +291,7 @@ def make_cases(tier):
 
 def weight(words, pb, db, fl):
     n = len(words)
-    return (4 ** n) * (6 ** pb) * (3 ** db) * {'plain': 1, 'asan': 8, 'tsan': 16}[fl]
+    return (12 ** n) * (5 ** pb) * (4 ** db) * {'plain': 1, 'asan': 4, 'tsan': 7}[fl] / 1e4
 
 
 def main(tier):
@@ -294,25 +302,26 @@ def main(tier):
     deadline_at = chk.t0 + budget
     try:
         root = scratch('c17')
-        exes, d = build(('plain', 'asan', 'tsan'), root)
+        exes, d = build(('asan', 'tsan'), root)
         ne1 = run_e1(chk, d)
         jobs = []
         for words, pb, db in make_cases(tier):
-            for fl in ('plain', 'asan', 'tsan'):
+            for fl in ('asan', 'tsan'):       # every execution runs under ASan ("nor touches freed memory"); no separate plain run
                 p, dv = pb, db
-                if fl == 'tsan':      # data races are a bonus for this property (DESIGN 1.5): one preemption level less
+                if fl == 'tsan':      # data races are a bonus for this property (DESIGN 1.5): one preemption level less, <= 3 threads
                     p, dv = max(pb - 1, 1), min(db, 1)
                     if len(words) > 3:
                         continue
+                wt = weight(words, p, dv, fl)
                 jobs.append({'case': {'threads': words}, 'words': words, 'exe': exes[fl], 'flavour': fl, 'pb': p, 'db': dv, 'spurious': 1,
-                             'weight': weight(words, p, dv, fl)})
+                             'mix': ''.join(w[0] for w in words), 'weight': wt, 'jobs': 16 if wt > 500 else 8 if wt > 100 else 1, 'count_flavour': 'asan'})
         mx = mclib.Matrix(chk, [REPO, d], allowed_status=('ok', 'blocked'), projection=projection)
         results = mx.run(jobs, oracle, deadline_at)
         mx.report('checks/c17.py', lambda ex, r, key: True)
         mx.fill_coverage('E2: case = one word per thread, W:<bits>:<addr>:<memarg offset>:<expected old|new>:<timeout> or N:<addr>:<offset>:<count>:<store first>; addresses %d and %d '
                          'share a bucket of the futex map, %d does not; every interleaving of harness yields and of the lock/unlock/cond_wait/cond_timedwait/cond_signal calls inside '
                          'futex.c up to the preemption bound, with up to db environment deviations (a timeout that fires while other threads can still run, a spurious wake-up) and every '
-                         'choice of the signalled waiter, is executed on the real code (plain + ASan; TSan one preemption level lower); the log of critical-section entries is replayed on '
+                         'choice of the signalled waiter, is executed on the real code in an ASan build (and again, one preemption level lower and with <= 3 threads, in a TSan build); the log of critical-section entries is replayed on '
                          'a sequential futex model.  distinct_nontrivial = cases whose schedules give more than one distinct (return values, terminal thread states, futex map) combination. '
                          'E1: 10 single-threaded probes of the translated functions with memarg offset 0/16' % (A, A2, B))
         chk.cov['evaluations'] += ne1
